@@ -312,3 +312,245 @@ Definition run_from_code (is_concept : bool) (c : code) : val :=
     | Ok (h, r) => VL [VB false; vopt vconcept (nth_error h r)]
     | Err k => VErr k
     end.
+
+(* ======================================================================================
+   Extension 1: == against anything.
+   CodedConcept.__eq__ falls through to Dataset.__eq__ for an operand that is neither a Code nor
+   a CodedConcept; pydicom's Dataset.__eq__ answers NotImplemented unless isinstance(other,
+   self.__class__); Python then tries the reflected method (first, when the right operand's
+   class is a proper subclass of the left one's) and finally falls back to identity.
+   [None] below stands for NotImplemented.  [VForeign] is None / str / int (a tuple behaves alike). *)
+Inductive pyval := VObj (o : obj) | VPlain (d : dsobj) | VForeign.
+
+(* pydicom _dict_equal on the six attributes of the model (CodeMeaning included) *)
+Definition fields_eqb (a b : dsobj) : bool :=
+  ostr_eqb (d_cv a) (d_cv b) && ostr_eqb (d_lcv a) (d_lcv b) && ostr_eqb (d_urn a) (d_urn b) &&
+  ostr_eqb (d_meaning a) (d_meaning b) && ostr_eqb (d_scheme a) (d_scheme b) &&
+  ostr_eqb (d_version a) (d_version b).
+
+(* Dataset.__eq__(self, other) for two distinct objects; self_cc: self.__class__ is CodedConcept *)
+Definition ds_eq_method (self_cc : bool) (d : dsobj) (b : pyval) : option (res bool) :=
+  match b with
+  | VObj (HD d') => Some (Ok (fields_eqb d d'))                    (* a CodedConcept is a Dataset *)
+  | VPlain p => if self_cc then None else Some (Ok (fields_eqb d p))
+  | _ => None
+  end.
+(* type(a).__eq__(a, b) *)
+Definition eq_method (srt : string -> option string) (a b : pyval) : option (res bool) :=
+  match a with
+  | VObj (HD d) =>
+      match b with
+      | VObj o => Some (obj_eq srt (HD d) o)          (* isinstance(other, (Code, CodedConcept)) *)
+      | _ => ds_eq_method true d b                    (* super().__eq__(other) *)
+      end
+  | VObj (PD c) =>
+      match b with
+      | VObj o => Some (obj_eq srt (PD c) o)
+      | _ => Some (Err "AttributeError")              (* other.scheme_designator *)
+      end
+  | VPlain p => ds_eq_method false p b
+  | VForeign => None
+  end.
+(* the right operand's class is a proper subclass of the left one's and overrides __eq__ *)
+Definition reflected_first (a b : pyval) : bool :=
+  match a, b with VPlain _, VObj (HD _) => true | _, _ => false end.
+(* a == b for two distinct objects, at least one of them a code *)
+Definition py_eq (srt : string -> option string) (a b : pyval) : res bool :=
+  let first := if reflected_first a b then eq_method srt b a else eq_method srt a b in
+  let second := if reflected_first a b then eq_method srt a b else eq_method srt b a in
+  match first with
+  | Some r => r
+  | None => match second with Some r => r | None => Ok false end
+  end.
+(* a != b: CodedConcept / Code define __ne__ as not (self == other); for the other left operands
+   Python's default __ne__ inverts __eq__ / the reflected __ne__ *)
+Definition py_ne (srt : string -> option string) (a b : pyval) : res bool :=
+  bind (py_eq srt a b) (fun r => Ok (negb r)).
+
+Definition ds_of_code (a : attr) (c : code) : dsobj := ds_with a c.
+(* the other operand of a mixed comparison: 0 foreign, 1 plain dataset with the same content as [c] stored
+   in attribute [a], 2 the same with another meaning *)
+Definition run_eq_any (tbl : list (string * string)) (r : route) (c : code) (k : Z) (a : attr) (c2 : code) : val :=
+  match mk_obj r c with
+  | Err e => VErr e
+  | Ok o =>
+      let x := if k =? 0 then VForeign else VPlain (ds_with a c2) in
+      VL [vrb (py_eq (assoc tbl) (VObj o) x); vrb (py_eq (assoc tbl) x (VObj o));
+          vrb (py_ne (assoc tbl) (VObj o) x); vrb (py_ne (assoc tbl) x (VObj o))]
+  end.
+
+(* ======================================================================================
+   Extension 2: sets and dictionaries with several keys.
+   An entry is (identity, object).  CPython's lookup of key x: hash(x) (may raise); a stored
+   entry e matches when hash(e) = hash(x) and (e is x or e == x), with the STORED key on the left.
+   The table is searched in insertion order (the probing order of CPython is unobservable for
+   keys on which the match relation is an equivalence - proved in C17_Proofs_Set). *)
+Definition entry := (nat * obj)%type.
+Definition slot_match (srt : string -> option string) (e x : entry) : res bool :=
+  bind (hash_eq (snd e) (snd x)) (fun he =>
+    if he then (if Nat.eqb (fst e) (fst x) then Ok true else obj_eq srt (snd e) (snd x)) else Ok false).
+Fixpoint set_find (srt : string -> option string) (s : list entry) (x : entry) : res (option nat) :=
+  match s with
+  | [] => Ok None
+  | e :: t => bind (slot_match srt e x) (fun m =>
+               if m then Ok (Some 0%nat) else bind (set_find srt t x) (fun r => Ok (option_map S r)))
+  end.
+(* x in s: the hash of x is taken first *)
+Definition set_lookup_ix (srt : string -> option string) (s : list entry) (x : entry) : res (option nat) :=
+  bind (hash_key (snd x)) (fun _ => set_find srt s x).
+Definition set_contains (srt : string -> option string) (s : list entry) (x : entry) : res bool :=
+  bind (set_lookup_ix srt s x) (fun r => Ok (isSome r)).
+Definition set_add (srt : string -> option string) (s : list entry) (x : entry) : res (list entry) :=
+  bind (set_lookup_ix srt s x) (fun r => match r with Some _ => Ok s | None => Ok (s ++ [x])%list end).
+Definition set_of_list (srt : string -> option string) (l : list entry) : res (list entry) :=
+  fold_left (fun acc x => bind acc (fun s => set_add srt s x)) l (Ok []).
+
+(* dict: d[x] = v keeps the key object already stored and replaces the value *)
+Definition dict := list (entry * Z).
+Fixpoint set_nth_value (d : dict) (i : nat) (v : Z) : dict :=
+  match d, i with
+  | [], _ => []
+  | (k, _) :: t, O => (k, v) :: t
+  | kv :: t, S i' => kv :: set_nth_value t i' v
+  end.
+Definition dict_set (srt : string -> option string) (d : dict) (x : entry) (v : Z) : res dict :=
+  bind (set_lookup_ix srt (map fst d) x) (fun r =>
+    match r with Some i => Ok (set_nth_value d i v) | None => Ok (d ++ [(x, v)])%list end).
+Definition dict_get (srt : string -> option string) (d : dict) (x : entry) : res (option Z) :=
+  bind (set_lookup_ix srt (map fst d) x) (fun r =>
+    Ok (match r with Some i => option_map snd (nth_error d i) | None => None end)).
+Definition dict_of_list (srt : string -> option string) (l : list (entry * Z)) : res dict :=
+  fold_left (fun acc kv => bind acc (fun d => dict_set srt d (fst kv) (snd kv))) l (Ok []).
+
+Fixpoint mk_entries (i : nat) (l : list (route * code)) : res (list entry) :=
+  match l with
+  | [] => Ok []
+  | rc :: t => bind (mk_obj (fst rc) (snd rc)) (fun o => bind (mk_entries (S i) t) (fun r => Ok ((i, o) :: r)))
+  end.
+Fixpoint number_from (i : Z) (l : list entry) : list (entry * Z) :=
+  match l with [] => [] | e :: t => (e, i) :: number_from (i + 1) t end.
+Definition vnat (n : nat) : val := VZ (Z.of_nat n).
+Definition vres_list {A} (f : A -> val) (l : list (res A)) : val := VL (map (vres f) l).
+
+(* s = set(objs); d = {}; d[objs[i]] = i.  Observed: identities kept by the set (insertion order), x in s for
+   every stored object itself and for every separately built probe, identities of the dict's keys, d.get(x) *)
+Definition run_set (tbl : list (string * string)) (objs probes : list (route * code)) : val :=
+  match mk_entries 0 objs, mk_entries (length objs) probes with
+  | Ok es, Ok ps =>
+      match set_of_list (assoc tbl) es, dict_of_list (assoc tbl) (number_from 0 es) with
+      | Ok s, Ok d =>
+          VL [VL (map (fun e => vnat (fst e)) s);
+              vres_list VB (map (set_contains (assoc tbl) s) (es ++ ps));
+              VL (map (fun kv => vnat (fst (fst kv))) d);
+              vres_list (vopt VZ) (map (dict_get (assoc tbl) d) (es ++ ps))]
+      | Err k, _ => VErr k
+      | _, Err k => VErr k
+      end
+  | Err k, _ => VErr k
+  | _, Err k => VErr k
+  end.
+
+(* ======================================================================================
+   Extension 3: histories.  A heap of datasets driven by a sequence of API calls and user actions.
+   [kids] records (parent address, address of the item of the parent's nested sequence): deepcopy
+   copies the nested item too (depth 1 is modelled), the alias shares it. *)
+Inductive op :=
+| OInit (v s m : string) (ver : option string)     (* CodedConcept(v, s, m, ver) *)
+| OFromCode (x : cref)                             (* CodedConcept.from_code *)
+| OFromDataset (x : pyarg) (copy : bool)           (* CodedConcept.from_dataset *)
+| ONewDataset (d : dsobj) (nested : option dsobj)  (* the user builds a plain Dataset (class forced to Dataset) *)
+| OSetMeaning (a : nat) (m : string)               (* obj.CodeMeaning = m *)
+| OSetNestedMeaning (a : nat) (m : string)         (* obj.<sequence>[0].CodeMeaning = m *)
+| OEq (a b : nat).                                 (* heap[a] == heap[b] *)
+
+Definition plain (d : dsobj) : dsobj :=
+  DS (d_cv d) (d_lcv d) (d_urn d) (d_meaning d) (d_scheme d) (d_version d) false.
+Definition state := (heap * list (nat * nat))%type.
+Fixpoint kid_of (kids : list (nat * nat)) (a : nat) : option nat :=
+  match kids with
+  | [] => None
+  | (p, c) :: t => if Nat.eqb p a then Some c else kid_of t a
+  end.
+Definition as_pyval (d : dsobj) : pyval := if d_cc d then VObj (HD d) else VPlain d.
+
+Definition step (srt : string -> option string) (st : state) (o : op) : state * val :=
+  let '(h, kids) := st in
+  match o with
+  | OInit v s m ver =>
+      match init v s m ver with
+      | Ok d => ((h ++ [d])%list, kids, vnat (length h))
+      | Err k => (st, VErr k)
+      end
+  | OFromCode x =>
+      match x with
+      | RConcept a =>
+          match nth_error h a with
+          | Some d => if d_cc d then (st, vnat a) else (st, VErr "unsupported")
+          | None => (st, VErr "dangling")
+          end
+      | RCode c =>
+          match from_code h x with
+          | Ok (h', r) => (h', kids, vnat r)
+          | Err k => (st, VErr k)
+          end
+      end
+  | OFromDataset x copy =>
+      match from_dataset h x copy with
+      | Err k => (st, VErr k)
+      | Ok (h', r) =>
+          if copy then
+            match x with
+            | Addr a =>
+                match kid_of kids a with
+                | Some c => match nth_error h c with
+                            | Some dc => ((h' ++ [dc])%list, (r, length h') :: kids, vnat r)
+                            | None => (h', kids, vnat r)
+                            end
+                | None => (h', kids, vnat r)
+                end
+            | NotDataset => (h', kids, vnat r)
+            end
+          else (h', kids, vnat r)
+      end
+  | ONewDataset d nested =>
+      match nested with
+      | None => ((h ++ [plain d])%list, kids, vnat (length h))
+      | Some dc => ((h ++ [plain d; plain dc])%list, (length h, S (length h)) :: kids, vnat (length h))
+      end
+  | OSetMeaning a m =>
+      match nth_error h a with
+      | Some d => (update h a (set_meaning m d), kids, vnat a)
+      | None => (st, VErr "dangling")
+      end
+  | OSetNestedMeaning a m =>
+      match kid_of kids a with
+      | Some c => match nth_error h c with
+                  | Some d => (update h c (set_meaning m d), kids, vnat c)
+                  | None => (st, VErr "dangling")
+                  end
+      | None => (st, VErr "AttributeError")
+      end
+  | OEq a b =>
+      match nth_error h a, nth_error h b with
+      | Some da, Some db =>
+          (st, if Nat.eqb a b then (if d_cc da then vrb (obj_eq srt (HD da) (HD da)) else VB true)
+               else vrb (py_eq srt (as_pyval da) (as_pyval db)))
+      | _, _ => (st, VErr "dangling")
+      end
+  end.
+
+Fixpoint run_ops (srt : string -> option string) (st : state) (ops : list op) : state * list val :=
+  match ops with
+  | [] => (st, [])
+  | o :: t => let '(st', v) := step srt st o in
+              let '(st'', vs) := run_ops srt st' t in (st'', v :: vs)
+  end.
+
+Definition vraw (d : dsobj) : val :=
+  VL [VB (d_cc d); vostr (d_cv d); vostr (d_lcv d); vostr (d_urn d); vostr (d_meaning d); vostr (d_scheme d);
+      vostr (d_version d)].
+(* results of the calls, every object at the end, the nested-item relation *)
+Definition run_history (tbl : list (string * string)) (ops : list op) : val :=
+  let '((h, kids), vs) := run_ops (assoc tbl) ([], []) ops in
+  VL [VL vs; VL (map vraw h);
+      VL (map (fun a => vopt vnat (kid_of kids a)) (seq 0 (length h)))].
